@@ -39,8 +39,8 @@ ASSUMPTIONS = [
     "interleavings are enumerated at the synchronisation points the harness owns (thread start, history load, join start, timed releases); preemption inside needs_update is not enumerated",
     "'about one second' is judged with 0.75 s slack (the only wall-clock oracle; the stall watchdog has a 10x margin)",
 ]
-BUDGET = {"quick": (110, 4), "thorough": (4000, 16)}
-REQUIRED = ["release_never", "release_in_command", "release_at_join", "release_after_timeout", "notice_printed", "garbage_version", "http_error", "connection_error", "exit_nonzero", "subprocess", "verbose_command"]
+BUDGET = {"quick": (90, 4), "thorough": (4000, 16)}
+REQUIRED = ["release_never", "release_in_command", "release_at_join", "release_after_timeout", "notice_printed", "garbage_version", "http_error", "connection_error", "exit_nonzero", "subprocess", "verbose_command", "slow_command"]
 
 NOTICE = "Please update to the latest ascmhl version using `pip3 install -U ascmhl`."
 RELEASES = ["start", "in_command", "at_join", "join+0.3", "join+0.9", "join+1.5", "never"]
@@ -65,7 +65,9 @@ _outcomes = st.one_of(
 
 
 def strategy(tier):
-    return st.fixed_dictionaries({"release": st.sampled_from(RELEASES), "outcome": _outcomes, "command": st.sampled_from(COMMANDS), "state": st.sampled_from(STATES)})
+    return st.fixed_dictionaries({"release": st.sampled_from(RELEASES), "outcome": _outcomes, "command": st.sampled_from(COMMANDS), "state": st.sampled_from(STATES),
+                                  # the command body itself takes this long (a slow medium); 0 = as fast as it is
+                                  "slow": st.sampled_from([0, 0, 0, 0, 0, 1.3])})
 
 
 def enumerated(tier):
@@ -77,6 +79,9 @@ def enumerated(tier):
     for tag in ("99.0", "v99.1", "99.0.post1", "99.0a1", "99.0rc1", "99.0b2", "99.0.dev1", "0.0.1", "99.0.0-rc.1", "1!0.0.1", "2026092715300000000012345-g1a2b3c"):
         for rel in ("start", "at_join"):
             yield {"release": rel, "outcome": {"kind": "tag", "tag": tag}, "command": "info", "state": "clean"}
+    for rel in ("never", "join+1.5", "join+0.9", "at_join"):
+        for cmd in ("info", "verify", "create"):
+            yield {"release": rel, "outcome": {"kind": "tag", "tag": "99.0"}, "command": cmd, "state": "clean", "slow": 1.3}
     for cmd in ("info_verbose", "verify_verbose"):
         for kind in ("ConnectionError", "http"):
             for rel in ("in_command", "at_join", "join+0.3"):
@@ -206,7 +211,7 @@ def argv_for(w, cmd, repo):
     return table[cmd]
 
 
-def invoke(group_mod, group, argv, outcome, release, watchdog=10.0):
+def invoke(group_mod, group, argv, outcome, release, watchdog=10.0, slow=0):
     """run one CLI invocation with a scripted update server; returns (exit, stdout, stderr, exc, seconds, stalled, thread_errors)"""
     import requests
     from click.testing import CliRunner
@@ -238,6 +243,8 @@ def invoke(group_mod, group, argv, outcome, release, watchdog=10.0):
     def load_and_release(cls, root_path):
         if release == "in_command":
             gate.set()
+        if slow:
+            time.sleep(slow)
         return real_load(cls, root_path)
 
     if release == "start":
@@ -338,11 +345,14 @@ def run_case(scn, ctx):
         mod, group = (main_mod, main_mod.mhltool_cli) if grp == "main" else (debug_mod, debug_mod.mhldebugtool_cli)
         pristine = w.abs("_pristine")
         shutil.copytree(w.abs("R"), pristine)
-        ref = invoke(mod, group, argv, {"kind": "ConnectionError"}, "start")
+        slow = scn.get("slow", 0)
+        ref = invoke(mod, group, argv, {"kind": "ConnectionError"}, "start", slow=slow)
         shutil.rmtree(w.abs("R"))
         shutil.copytree(pristine, w.abs("R"))
         shutil.rmtree(w.abs("flat"), ignore_errors=True)
-        got = invoke(mod, group, argv, scn["outcome"], scn["release"])
+        got = invoke(mod, group, argv, scn["outcome"], scn["release"], slow=slow)
+        if slow and ref[4] > 1.0:
+            ctx.event("slow_command")
         label = "%s %s, release=%s, outcome=%s" % (grp, argv[0], scn["release"], json.dumps(scn["outcome"]))
         require(ref[3] is None and not ref[5], "reference-run", "reference run misbehaved: %r" % (ref,))
         require(not got[5], "stall", "%s: still running after 10 s" % label)
